@@ -204,6 +204,24 @@ Lemma run_celseif_eq c b ch E :
   end.
 Proof. reflexivity. Qed.
 
+Lemma elab_celsesp_eq c b ch st :
+  elab_chain (CElseSp c b ch) st =
+  let st1 := ctor_else st in
+  let (cn, G1) := elab_expr (eSigs st1) c (eG st1) in
+  let st2 := ctor_if cn (set_G st1 G1) in
+  let st3 := dtor (leave_block (length (eSigs st)) (elab_block b st2)) in
+  elab_chain ch (dtor st3).
+Proof. reflexivity. Qed.
+
+Lemma run_celsesp_eq c b ch E :
+  run_chain inp (CElseSp c b ch) E =
+  match cond_val (eval_expr inp E c) with
+  | None => None
+  | Some true => match run_block inp b E with Some (E', r) => Some (lastn (length E) E', r) | None => None end
+  | Some false => run_chain inp ch E
+  end.
+Proof. reflexivity. Qed.
+
 Lemma run_bcons_eq s b E :
   run_block inp (BCons s b) E =
   match run_stmt inp s E with
@@ -360,7 +378,7 @@ Qed.
 Lemma celse_ok b : Pb b -> Pc (CElse b).
 Proof.
   intros Hb0 st W. rewrite elab_celse_eq. cbv zeta.
-  destruct (ctor_else_spec inp st W) as (W1 & E1 & sc & lv & (P1 & P2 & P3 & P4 & P5) & Ccomb & Hlv & Vfull).
+  destruct (ctor_else_spec inp st W) as (W1 & E1 & sc & lv & (P1 & P2 & P3 & P4 & P5) & Ccomb & Hlv & _ & Vfull).
   set (st1 := ctor_else st) in *.
   destruct (branch_ok b Hb0 st st1 sc W W1 E1 P1 P2 P3 P4 P5) as (W4 & F4 & L4 & _ & _ & BD & BL).
   set (st4 := dtor (leave_block (length (eSigs st)) (elab_block b st1))) in *.
@@ -428,6 +446,147 @@ Proof.
       apply (CD orn E E' R HL4); [rewrite Vorn4, (Hlv' l Hl), Hv, Hcv, Hc; reflexivity | exact Hlive | exact HR | apply BD; auto | exact Hrun].
 Qed.
 
+(* ---- ELSE IF (with a space): an IF scope nested in an ELSE scope, then the chain goes on ---- *)
+
+Lemma cor_B1_r a : cor a [B1] = [B1].
+Proof. unfold cor; simpl. destruct (bit_of a); reflexivity. Qed.
+
+Lemma elab_expr_fresh S c G n G' :
+  fresh_cond c = true -> sigs_bounded (length G) S -> elab_expr S c G = (n, G') -> length G <= n.
+Proof.
+  intros Hf Hb H. destruct c; simpl in Hf; try discriminate; simpl in H;
+    try (inversion H; subst; apply le_n).
+  - destruct (elab_expr S c G) as [na G1] eqn:H1. apply elab_expr_struct in H1 as [E1 _]; auto.
+    inversion H; subst. apply ext_length; exact E1.
+  - destruct (elab_expr S c1 G) as [na G1] eqn:H1. destruct (elab_expr S c2 G1) as [nb G2] eqn:H2.
+    apply elab_expr_struct in H1 as [E1 _]; auto.
+    apply elab_expr_struct in H2 as [E2 _]; [|eapply sigs_bounded_mono; [apply ext_length; exact E1|exact Hb]].
+    inversion H; subst. apply ext_length. eapply ext_trans; eauto.
+  - destruct (elab_expr S c1 G) as [na G1] eqn:H1. destruct (elab_expr S c2 G1) as [nb G2] eqn:H2.
+    apply elab_expr_struct in H1 as [E1 _]; auto.
+    apply elab_expr_struct in H2 as [E2 _]; [|eapply sigs_bounded_mono; [apply ext_length; exact E1|exact Hb]].
+    inversion H; subst. apply ext_length. eapply ext_trans; eauto.
+  - destruct (elab_expr S c1 G) as [na G1] eqn:H1. destruct (elab_expr S c2 G1) as [nb G2] eqn:H2.
+    apply elab_expr_struct in H1 as [E1 _]; auto.
+    apply elab_expr_struct in H2 as [E2 _]; [|eapply sigs_bounded_mono; [apply ext_length; exact E1|exact Hb]].
+    inversion H; subst. apply ext_length. eapply ext_trans; eauto.
+  - destruct (elab_expr S c1 G) as [na G1] eqn:H1. destruct (elab_expr S c2 G1) as [nb G2] eqn:H2.
+    apply elab_expr_struct in H1 as [E1 _]; auto.
+    apply elab_expr_struct in H2 as [E2 _]; [|eapply sigs_bounded_mono; [apply ext_length; exact E1|exact Hb]].
+    inversion H; subst. apply ext_length. eapply ext_trans; eauto.
+  - destruct (elab_expr S c1 G) as [na G1] eqn:H1. destruct (elab_expr S c2 G1) as [nb G2] eqn:H2.
+    apply elab_expr_struct in H1 as [E1 _]; auto.
+    apply elab_expr_struct in H2 as [E2 _]; [|eapply sigs_bounded_mono; [apply ext_length; exact E1|exact Hb]].
+    inversion H; subst. apply ext_length. eapply ext_trans; eauto.
+  - destruct (elab_expr S c G) as [na G1] eqn:H1. apply elab_expr_struct in H1 as [E1 _]; auto.
+    inversion H; subst. apply ext_length; exact E1.
+Qed.
+
+Lemma celsesp_ok c b ch : fresh_cond c = true -> Pb b -> Pc ch -> Pc (CElseSp c b ch).
+Proof.
+  intros Hfresh Hb0 Hch st W. rewrite elab_celsesp_eq. cbv zeta.
+  (* the ELSE scope *)
+  destruct (ctor_else_spec inp st W)
+    as (W1 & E01 & sc1 & lv & (P1 & P2 & P3 & P4 & P5) & Ccomb1 & Hlv & (l' & Hloe & Bl' & Vl') & Vfull1).
+  set (st1 := ctor_else st) in *.
+  destruct (elab_expr (eSigs st1) c (eG st1)) as [cn G1] eqn:He.
+  pose proof (WF_sigs_bounded _ W1) as Hb1.
+  destruct (elab_expr_struct _ _ _ _ _ Hb1 He) as [E1A Bc].
+  pose proof (elab_expr_fresh _ _ _ _ _ Hfresh Hb1 He) as Hcn.
+  set (stA := set_G st1 G1).
+  assert (WA : WF stA) by (apply WF_set_G; auto).
+  (* the IF scope inside it *)
+  destruct (ctor_if_spec inp cn stA WA Bc) as (W2 & EA2 & sc2 & (Q1 & Q2 & Q3 & Q4 & Q5) & Ccond2 & Ccomb2 & Cloe2 & Vfull2).
+  set (st2 := ctor_if cn stA) in *.
+  assert (SA : eStack stA = sc1 :: eStack st) by exact P1.
+  rewrite SA in Vfull2. change (eG stA) with G1 in Vfull2.
+  assert (Vf1 : V G1 (sc_full sc1) = V (eG st1) (sc_full sc1)).
+  { apply V_ext; auto. destruct W1 as [_ _ H3 _ _]. rewrite P1 in H3. inversion H3 as [|? ? (?&?&?) _]; auto. }
+  rewrite Vf1 in Vfull2.
+  destruct (branch_ok b Hb0 stA st2 sc2 WA W2 EA2 Q1 Q2 Q3 Q4 Q5) as (W3 & F3 & L3 & _ & LC2 & BD & BL).
+  assert (HlenA : length (eSigs stA) = length (eSigs st)) by (change (eSigs stA) with (eSigs st1); rewrite P4; reflexivity).
+  rewrite HlenA in W3, F3, L3, LC2, BD, BL.
+  set (st3 := dtor (leave_block (length (eSigs st)) (elab_block b st2))) in *.
+  assert (HL3 : eLast st3 = Some cn) by (rewrite <- Ccond2; apply LC2; auto).
+  (* the ELSE destructor *)
+  assert (S3 : eStack st3 = sc1 :: eStack st) by (rewrite (fr_stack _ _ F3); exact SA).
+  destruct (dtor_spec st3 sc1 (eStack st) W3 S3) as (W4 & E34 & S4 & N4 & G4 & R4 & _ & _).
+  assert (Hne : cn <> l').
+  { pose proof (ext_length _ _ E01). lia. }
+  destruct (dtor_else_or inp st3 sc1 (eStack st) l' cn W3 S3 Ccomb1 Hloe HL3 Hne) as (orn & HL4 & Vorn).
+  set (st4 := dtor st3) in *.
+  assert (E0A : ext (eG st) (eG stA)) by (eapply ext_trans; [exact E01|exact E1A]).
+  assert (EA3 : ext (eG stA) (eG st3)) by apply (fr_ext _ _ F3).
+  assert (E04 : ext (eG st) (eG st4)) by (eapply ext_trans; [exact E0A|]; eapply ext_trans; [exact EA3|exact E34]).
+  assert (F4 : frame st st4).
+  { constructor.
+    - exact E04.
+    - exact S4.
+    - rewrite N4. pose proof (fr_next _ _ F3). change (eNext stA) with (eNext st1) in H. lia.
+    - destruct (fr_reads _ _ F3) as [NR HNR]. exists NR. rewrite R4, HNR. change (eReads stA) with (eReads st1). rewrite P5. reflexivity.
+    - rewrite G4, L3. apply le_n. }
+  assert (L4 : length (eSigs st4) = length (eSigs st)) by (rewrite G4; exact L3).
+  assert (NR4 : new_reads st st4 = new_reads stA st3).
+  { unfold new_reads. rewrite R4. change (eReads stA) with (eReads st1). rewrite P5. reflexivity. }
+  assert (Vcn3 : V (eG st3) cn = V G1 cn) by (apply V_ext; auto).
+  assert (Vl3 : V (eG st3) l' = lv).
+  { rewrite <- Vl'. apply V_ext; auto. eapply ext_trans; [exact E1A|exact EA3]. }
+  rewrite Vcn3, Vl3 in Vorn.
+  pose proof (WF_sigs_bounded _ W) as Hb.
+  (* lifting what branch_ok says about stA .. st3 to st .. st4 *)
+  assert (Lift : forall D, dead_pres D stA st3 -> dead_pres D st st4).
+  { intros D [K Rd]. split.
+    - rewrite <- L4, lastn_all. rewrite G4.
+      change (eSigs stA) with (eSigs st1) in K. rewrite P4 in K. rewrite <- L3, lastn_all in K.
+      eapply keep_post; [|exact E34|apply (WF_sigs_bounded _ W3)].
+      eapply keep_pre; [exact K|exact E0A|exact Hb].
+    - rewrite NR4. rewrite (lreads_ext inp (eG st3) (eG st4)); [exact Rd|exact E34|apply frame_new_reads_ok; auto]. }
+  destruct (chain_after ch Hch st st4 W W4 F4 L4) as (W5 & F5 & L5 & CB & CE & CC & CD).
+  set (st5 := elab_chain ch st4) in *.
+  split; [exact W5|]. split; [exact F5|]. split; [exact L5|]. split; [|split].
+  - (* the enclosing code is dead *)
+    intros D Hd. apply CB; auto. destruct Hd as (par & rest & Hs & Hv & HD).
+    apply Lift. apply BD.
+    + rewrite Vfull2, Vfull1, Hs, Hv. rewrite cand_B0_r. apply cand_B0_r.
+    + pose proof (stack_top_lt st par rest W Hs). change (eNext stA) with (eNext st1). lia.
+  - (* an earlier branch was taken *)
+    intros l Hl Hv. apply (CE orn); auto.
+    + rewrite Vorn, (Hlv l Hl), Hv. apply cor_B1_r.
+    + apply Lift. apply BD.
+      * rewrite Vfull2, Vfull1, (Hlv l Hl), Hv.
+        replace (match eStack st with [] => cnot [B1] | par :: _ => cand (cnot [B1]) (V (eG st) (sc_full par)) end) with [B0]
+          by (destruct (eStack st); reflexivity).
+        apply cand_B0_r.
+      * change (eNext stA) with (eNext st1). lia.
+  - (* no earlier branch was taken *)
+    intros l Hl Hv E E' R Hlive HR Hrun. rewrite run_celsesp_eq in Hrun.
+    assert (HRA : rel (eG stA) (eSigs stA) E).
+    { change (eSigs stA) with (eSigs st1). rewrite P4. eapply rel_ext; [exact E0A|exact Hb|exact HR]. }
+    assert (HR1 : rel (eG st1) (eSigs st1) E) by (rewrite P4; eapply rel_ext; [exact E01|exact Hb|exact HR]).
+    pose proof (elab_expr_sem inp _ _ _ _ _ _ Hb1 HR1 He) as Hcv.
+    assert (Hf1 : V (eG st1) (sc_full sc1) = [B1]).
+    { rewrite Vfull1, (Hlv l Hl), Hv. unfold FrontendProofs.live in Hlive.
+      destruct (eStack st) as [|par rest]; auto. rewrite Hlive. reflexivity. }
+    destruct (cond_val (eval_expr inp E c)) as [[|]|] eqn:Hc; [| |discriminate].
+    + apply cond_val_true in Hc.
+      destruct (run_block inp b E) as [[E1' r1]|] eqn:Hrb; [|discriminate].
+      injection Hrun as <- <-.
+      assert (Hf : V (eG st2) (sc_full sc2) = [B1]) by (rewrite Vfull2, Hf1, Hcv, Hc; reflexivity).
+      destruct (BL Hf E E1' r1 HRA Hrb) as [HR3 Hr3].
+      apply (CC orn _ _ HL4).
+      * rewrite Vorn, Hcv, Hc. reflexivity.
+      * rewrite G4. eapply rel_ext; [exact E34|apply (WF_sigs_bounded _ W3)|exact HR3].
+      * rewrite NR4. rewrite (lreads_ext inp (eG st3) (eG st4)); [exact Hr3|exact E34|apply frame_new_reads_ok; auto].
+    + apply cond_val_false in Hc.
+      assert (Hf : V (eG st2) (sc_full sc2) = [B0]) by (rewrite Vfull2, Hcv, Hc; reflexivity).
+      apply (CD orn E E' R HL4).
+      * rewrite Vorn, Hcv, Hc, (Hlv l Hl), Hv. reflexivity.
+      * exact Hlive.
+      * exact HR.
+      * apply Lift. apply BD; auto. change (eNext stA) with (eNext st1). lia.
+      * exact Hrun.
+Qed.
+
 (* ---- the induction ---- *)
 
 Scheme stmt_mut := Induction for stmt Sort Prop
@@ -435,18 +594,22 @@ Scheme stmt_mut := Induction for stmt Sort Prop
   with chain_mut := Induction for chain Sort Prop.
 Combined Scheme prog_mutind from stmt_mut, block_mut, chain_mut.
 
-Theorem all_ok : (forall s, Ps s) /\ (forall b, Pb b) /\ (forall ch, Pc ch).
+Theorem all_ok :
+  (forall s, nbe_stmt s = true -> Ps s) /\ (forall b, nbe_block b = true -> Pb b) /\
+  (forall ch, nbe_chain ch = true -> Pc ch).
 Proof.
   apply prog_mutind.
-  - intros x b e st W. apply decl_ok; exact W.
-  - intros x p e st W. apply assign_ok; exact W.
-  - intros t x st W. apply read_ok; exact W.
-  - intros c th Hth ch Hch. apply if_ok; assumption.
-  - apply bnil_ok.
-  - intros s Hs b Hb. apply bcons_ok; assumption.
-  - apply cend_ok.
-  - intros b Hb. apply celse_ok; assumption.
-  - intros c b Hb ch Hch. apply celseif_ok; assumption.
+  - intros x b e _ st W. apply decl_ok; exact W.
+  - intros x p e _ st W. apply assign_ok; exact W.
+  - intros t x _ st W. apply read_ok; exact W.
+  - intros c th Hth ch Hch H. simpl in H. apply andb_prop in H as [H1 H2]. apply if_ok; auto.
+  - intros _. apply bnil_ok.
+  - intros s Hs b Hb H. simpl in H. apply andb_prop in H as [H1 H2]. apply bcons_ok; auto.
+  - intros _. apply cend_ok.
+  - intros b Hb H. simpl in H. apply celse_ok; auto.
+  - intros c b Hb ch Hch H. simpl in H. apply andb_prop in H as [H1 H2]. apply celseif_ok; auto.
+  - intros c b Hb ch Hch H. simpl in H. apply andb_prop in H as [H12 H3]. apply andb_prop in H12 as [H1 H2].
+    apply celsesp_ok; auto.
 Qed.
 
 End Main.
